@@ -860,8 +860,10 @@ class NN:
         while True:
             if head(cur) == "sub" and head(strip(cur[2])) == "slice":
                 sl = strip(cur[2])
-                if not (is_const(sl[1], 0) or is_const(sl[1], None)) or not is_const(sl[3], None):
+                if not is_const(sl[3], None):
                     return None
+                if not (is_const(sl[1], 0) or is_const(sl[1], None)):
+                    info["offset"] = sl[1]
                 info["limit"] = sl[2]
                 info["order"].append("truncate")
                 cur = strip(cur[1])
